@@ -164,11 +164,25 @@ def dict_schema(C, td, fd):
     consumed.add("samples")
     # accepted idiom: the remaining keys are filtered to the constructor's init fields
     filters = False
+    init_sets = set()
     for n in walk_no_nested(fd.node):
-        if isinstance(n, (ast.DictComp, ast.SetComp, ast.ListComp, ast.GeneratorExp)):
-            src = ast.unparse(n)
+        if isinstance(n, ast.Assign) and isinstance(n.targets[0], ast.Name) and isinstance(n.value, (ast.SetComp, ast.ListComp, ast.GeneratorExp, ast.Call)):
+            src = ast.unparse(n.value)
             if "fields(" in src and ".init" in src:
-                filters = True
+                init_sets.add(n.targets[0].id)
+    splat = None
+    for n in walk_no_nested(fd.node):
+        if isinstance(n, ast.Call) and isinstance(n.func, ast.Name) and n.func.id == "cls":
+            for kw in n.keywords:
+                if kw.arg is None and isinstance(kw.value, ast.Name):
+                    splat = kw.value.id
+    for n in walk_no_nested(fd.node):
+        if isinstance(n, ast.Assign) and isinstance(n.targets[0], ast.Name) and n.targets[0].id == splat and isinstance(n.value, ast.DictComp):
+            for g in n.value.generators:
+                for cond in g.ifs:
+                    if isinstance(cond, ast.Compare) and isinstance(cond.ops[0], ast.In) and isinstance(cond.comparators[0], ast.Name) \
+                            and cond.comparators[0].id in init_sets:
+                        filters = True
     return emitted, consumed, filters
 
 
@@ -191,6 +205,6 @@ MUTANTS += [
     M("SMC concatenate takes evidence of the last piece only", _S, "out.log_evidence = first.log_evidence", "out.log_evidence = None", "C16.cat"),
 ]
 NEUTRALS = [
-    M("selection via temporaries", _S, "return self.__class__(\n            x=self.x[idx],", "xs = self.x[idx]\n        return self.__class__(\n            x=xs,"),
+    M("selection via temporaries", _S, "return self.__class__(\n            x=self.x[idx],", "xs = self.x[idx]\n        return self.__class__(\n            x=xs,", within="BaseSamples.__getitem__"),
     M("concatenate keyword order", _S, "parameters=samples[0].parameters,\n            dtype=samples[0].dtype,", "dtype=samples[0].dtype,\n            parameters=samples[0].parameters,"),
 ]
